@@ -5,6 +5,7 @@ import (
 	"crypto/elliptic"
 	"fmt"
 	"math/big"
+	"path/filepath"
 	"strings"
 	"time"
 
@@ -504,6 +505,11 @@ var c04Programs = []string{
 	"package main\nfunc main(a, b int32) int32 {\n\tif a > b {\n\t\treturn a - b\n\t}\n\treturn b - a\n}\n",
 	"package main\nfunc main(a, b uint8) (uint8, bool) {\n\ts := a + b\n\tt := a | b\n\treturn s & t, s < t\n}\n",
 	"package main\nfunc main(a, b uint32) uint32 {\n\tvar r uint32\n\tfor i := 0; i < 4; i++ {\n\t\tr = r + (a & (b >> i))\n\t}\n\treturn r\n}\n",
+	// native circuit files called directly (the path pkg/math and pkg/crypto use), with full-width
+	// arguments and with a constant narrower than the circuit input in the last / first position
+	"package main\nfunc main(a, b uint64) uint64 {\n\treturn native(\"mul64.circ\", a, 5) + b\n}\n",
+	"package main\nfunc main(a, b uint64) uint64 {\n\treturn native(\"mul64.circ\", a, b)\n}\n",
+	"package main\nfunc main(a, b uint64) uint64 {\n\treturn native(\"add64.circ\", 5, a) ^ native(\"sub64.circ\", b, 3)\n}\n",
 }
 
 // programs whose garbler argument ends just below the 64K wire-page boundary so
@@ -571,7 +577,12 @@ func runStreamSession(c *Ctx, idx int) error {
 				gch <- out{nil, fmt.Errorf("panic: %v", p)}
 			}
 		}()
-		_, vals, err := compiler.New(params).Stream(gConn, gOT, "c04", strings.NewReader(src),
+		name := "c04"
+		if strings.Contains(src, "native(") {
+			// native circuit files are resolved relative to the source file's directory
+			name = filepath.Join(verifRepo(), "pkg", "math", "c04native.mpcl")
+		}
+		_, vals, err := compiler.New(params).Stream(gConn, gOT, name, strings.NewReader(src),
 			[]string{gIn}, nil)
 		gch <- out{vals, err}
 	}()
